@@ -92,7 +92,7 @@ type Runner struct {
 var Scale = map[string][2]int{
 	"C01": {40, 80}, "C02": {60, 150}, "C03": {40, 60}, "C04": {5, 8}, "C05": {2, 1}, "C06": {3, 4}, "C07": {60, 100},
 	"C08": {30, 25}, "C09": {5, 10}, "C10": {40, 15}, "C11": {30, 10}, "C12": {20, 10}, "C13": {5, 20}, "C14": {40, 30},
-	"C15": {6, 5}, "C16": {60, 100}, "C17": {30, 4}, "C18": {60, 40}, "C19": {2, 1}, "C20": {2, 2},
+	"C15": {6, 5}, "C16": {60, 60}, "C17": {30, 4}, "C18": {60, 40}, "C19": {2, 1}, "C20": {2, 2},
 }
 
 // N picks a count by tier (scaled by Scale).
@@ -108,15 +108,15 @@ func (r *Runner) N(quick, thorough int) int {
 }
 
 type deltaRec struct {
-	T        string            `json:"t"`
-	Cases    int               `json:"cases"`
-	Evals    int64             `json:"evals"`
-	Classes  map[string]int64  `json:"classes,omitempty"`
-	Sigs     []uint64          `json:"sigs,omitempty"`
-	Counters map[string]int64  `json:"counters,omitempty"`
-	Obs      map[string]int64  `json:"obs,omitempty"`
-	Inconc   map[string]int64  `json:"inconc,omitempty"`
-	Samples  []sampleRec       `json:"samples,omitempty"`
+	T        string              `json:"t"`
+	Cases    int                 `json:"cases"`
+	Evals    int64               `json:"evals"`
+	Classes  map[string]int64    `json:"classes,omitempty"`
+	Sigs     []uint64            `json:"sigs,omitempty"`
+	Counters map[string]int64    `json:"counters,omitempty"`
+	Obs      map[string]int64    `json:"obs,omitempty"`
+	Inconc   map[string]int64    `json:"inconc,omitempty"`
+	Samples  []sampleRec         `json:"samples,omitempty"`
 	sigSeen  map[uint64]struct{} `json:"-"`
 }
 
